@@ -66,7 +66,7 @@ specs = {
              extra_assume=["reserved bits of the path meta header, info fields and hop fields are zero, as a conforming sender sets them (the router re-serialises these fields from their decoded form)"],
              extra_notcov=["one-hop path completion is checked by C12's clause only-second-hop-and-segid-change"]),
 }
-specs["C09"] = spec("C09", ["c09"], "VerifC09", "VerifC09Twin", ["scmp-emitted", "parameter-problem", "external-interface-down", "internal-connectivity-down", "destination-unreachable", "no-reply"],
+specs["C09"] = spec("C09", ["c09"], "VerifC09", "VerifC09Twin", ["scmp-emitted", "parameter-problem"],
              [cls(2, 0, 0, ingress=1), cls(2, 0, 0, ingress=0), cls(2, 0, 0, ingress=1, nh=202), cls(2, 0, 0, ingress=1, big=1300, lh6=1)],
              [cls(2, 0, 0, ingress=1, big=1300), cls(2, 0, 0, ingress=1, big=1100, lh6=1, sl=3), cls(2, 0, 0, ingress=3), cls(2, 0, 0, ingress=1, headroom=512), A3, cls(2, 2, 0, ingress=1), cls(3, 0, 0, ingress=1, nh=202), cls(3, 0, 0, ingress=1, headroom=512), cls(3, 0, 0, ingress=0, sl=3), cls(2, 0, 0)], cls(2, 0, 0, ingress=1), level_text=LT.replace("fast path (", "fast path and slow path (slowPathPacketProcessor.processPacket / packSCMP / prepareSCMP; "), rsv0=1,
              extra_assume=["reserved bits of the offending packet's path meta header, info fields and hop fields are zero (scion.Raw.ToDecoded re-serialises the meta header into the packet buffer before it is quoted, which would clear non-zero reserved bits)",
